@@ -348,7 +348,6 @@ func unmarshalPair(raw map[string]json.RawMessage, p *PairCase) error {
 	return json.Unmarshal(b, p)
 }
 
-
 func unpackName(b []byte) Name {
 	n := Name{}
 	for i := 0; i < len(b) && b[i] != 0; {
